@@ -489,6 +489,9 @@ fn main() {
             vec![("x-ms-version", b"2012-11-30"), ("x-ms-client-request-id", b"0000")],
             vec![("Expect", b"100-continue")],
             vec![("x-ms-azure-host-authorization", b"Azure-HMAC-SHA256 aaaaaaaa-1111-1111-1111-111111111111 0000000000000000000000000000000000000000000000000000000000000000")],
+            // connection-management headers as many clients send them (whatever the proxy makes of them: the MAC covers what the host receives)
+            vec![("Connection", b"keep-alive"), ("Keep-Alive", b"timeout=5, max=100")],
+            vec![("Proxy-Connection", b"keep-alive"), ("TE", b"trailers")],
         ];
         let big = vec![b'z'; 1000];
         let bodies: Vec<(Option<&[u8]>, Option<&[usize]>)> = vec![(None, None), (Some(b"x"), None), (Some(&big), None), (Some(&big), Some(&[7, 300])), (Some(b""), None)];
